@@ -292,6 +292,9 @@ func (jb *JitterBuffer) Clear(resetState bool) {
 	if resetState {
 		jb.lastSequence = 0
 		jb.state = Buffering
+		// the next packet pushed starts a new playout sequence
+		jb.playoutReady = false
+		jb.playoutHead = 0
 		jb.stats = Stats{0, 0, 0}
 		jb.minStartCount = 50
 	}
